@@ -24,7 +24,7 @@ PID = "C55"
 LEVEL = "translation_validation"
 LEAN = ["SaVerif.Props.C55"]
 META = {
-    "text": "Differential check of the two builds of every dual-implemented module (util/_collections_cy, util/_immutabledict_cy, engine/_processors_cy, engine/_util_cy, sql/_util_cy, engine/_row_cy, engine/_result_cy): one seeded workload (operation sequences on OrderedSet/IdentitySet/immutabledict/unique_list, result processors on valid/invalid/None inputs, _distill_params on every parameter shape, tuplegetter, anon_map/prefix_anon_map lookup histories, Row access patterns incl. pickling, Result fetch sequences with scalars/mappings/columns/unique/yield_per/partitions) is executed in two processes — all modules pure Python vs every non-stale pre-built extension loaded — and return values / exception types / resulting states are compared; both builds are compared with one Lean model each case kind has: the collection models of C54, M-CYUTIL, M-ROW (BaseRow/Row: tuple semantics, key access, ordering, hash, pickling) and — reusing the operation sequences, executor and line format of C10 — M-RESULT (every result kind: cursor strategies, IteratorResult, ChunkedIteratorResult, MergedResult, frozen results, scalars/mappings/unique/columns/yield_per/partitions), plus independent reference oracles. Lean: refine_trans (both builds refining one model are interchangeable), tuplegetter_eq_itemgetter (the contiguous-slice fast path is unobservable for valid indexes), anon_map index stability / density / injectivity, apply_processors_spec, row_key_access, row_pickle_roundtrip, row_ordering_is_tuple_ordering (strict total lexicographic order).",
+    "text": "Differential check of the two builds of every dual-implemented module (util/_collections_cy, util/_immutabledict_cy, engine/_processors_cy, engine/_util_cy, sql/_util_cy, engine/_row_cy, engine/_result_cy): one seeded workload (operation sequences on OrderedSet/IdentitySet/immutabledict/unique_list, result processors on valid/invalid/None inputs, _distill_params on every parameter shape, tuplegetter, anon_map/prefix_anon_map lookup histories, Row access patterns incl. pickling, Result fetch sequences with scalars/mappings/columns/unique/yield_per/partitions) is executed in two processes — all modules pure Python vs every non-stale pre-built extension loaded — and return values / exception types / resulting states are compared; both builds are compared with one Lean model each case kind has: the collection models of C54, M-CYUTIL, M-ROW (BaseRow/Row: tuple semantics, key access, ordering, hash, pickling) and — reusing the operation sequences, executor and line format of C10 — M-RESULT / its memoized-getter refinement ResultMemo, whichever C10 itself is checked against (every result kind: cursor strategies, IteratorResult, ChunkedIteratorResult, MergedResult, frozen results, scalars/mappings/unique/columns/yield_per/partitions), plus independent reference oracles. Lean: refine_trans (both builds refining one model are interchangeable), tuplegetter_eq_itemgetter (the contiguous-slice fast path is unobservable for valid indexes), anon_map index stability / density / injectivity, apply_processors_spec, row_key_access, row_pickle_roundtrip, row_ordering_is_tuple_ordering (strict total lexicographic order).",
     "note": "The extensions cannot be rebuilt (no Cython): an extension is examined only while its .py is byte-identical to the source it was built from; a stale extension is reported in evidence and skipped (util/_collections_cy is stale since the F9/F18 fixes). Theorem content is thin (the claim is carried by the differential run): level translation_validation. engine/_result_cy is compared with M-RESULT of C10 (its assumptions and hazard truncation apply unchanged: only the prefix of each sequence whose outputs C10 determines is compared), engine/_row_cy with M-ROW (integer values, distinct keys). Performance and C-level behaviour are not compared.",
     "technique": "two-process differential execution of both builds on one seeded workload + correspondence with Lean models + reference oracles; Lean lemmas for the helper fast paths",
     "design_ref": "DESIGN.md §3 C55",
@@ -121,12 +121,27 @@ def make_workload(ctx, thorough):
         seq = [rng.randrange(6) for _ in range(rng.randint(0, 8))]
         w.append({"kind": "unique_list", "seq": seq, "form": rng.choice(["list", "tuple", "iter", "gen"])})
     w += Y.gen_cases(rng, 12000 if thorough else 2500)
-    # result-delivery op sequences of C10 (every result kind), compared with M-RESULT
+    # result-delivery op sequences of C10 (every result kind): same generators, same executor, same
+    # driver op and request encoding as harness/props/c10.py (imported, not copied); both builds are
+    # compared with the model C10 itself is compared with
+    import inspect
+    import re
+
     from harness.props import c10
 
+    m = re.search(r'case_line\("(\w+)", case, k\)', inspect.getsource(c10.run))
+    cmd = m.group(1) if m else "mrun"
+    cases = []
     for i in range(6000 if thorough else 700):
-        case = c10.gen_memo_scenario(rng, ctx.tier) if i % 4 == 3 else c10.gen_case(rng, ctx.tier)
-        w.append({"kind": "c10", "case": case})
+        if i % 8 == 5 and hasattr(c10, "gen_projection_chain"):
+            cases.append(c10.gen_projection_chain(rng, ctx.tier))
+        elif i % 4 == 3:
+            cases.append(c10.gen_memo_scenario(rng, ctx.tier))
+        else:
+            cases.append(c10.gen_case(rng, ctx.tier))
+    hz = c10.memo_hazards(ctx, cases) if hasattr(c10, "memo_hazards") else [None] * len(cases)
+    for case, mhz in zip(cases, hz):
+        w.append({"kind": "c10", "case": case, "cmd": cmd, "mhz": None if mhz is None else sorted(mhz)})
     return w
 
 
